@@ -110,10 +110,13 @@ package parser2
 //@   ensures result1 ==> result0 != nil
 //@   assigns nothing
 
+// without comfort mode the scanner never remembers a token type, so it never invents a `*` token (C03, C15: an omitted
+// multiplication sign is accepted in comfort mode only)
 //@ func (t *Tokenizer) run
 //@   property C04
 //@   safety C04
 //@   requires t.number != nil && t.identifier != nil && t.operatorDetector != nil
+//@   loop 1 invariant[no-implicit-multiplication-without-comfort C03 C15] !t.comfortEnabled ==> lastTokenType == tInvalid
 
 //@ func (t *Tokenizer) read
 //@   property C04
